@@ -8,6 +8,8 @@
 //!         (flush_threads N) [(snap <hexdir>)])
 //!   (ingest (<table>...))     table = (xNAME NROWS ((xCOL (cell...))...)); cell = n | (i Z) | (s xHEX) | (f BITS)
 //!   (flush) (evict) (quiesce) (events) (close)
+//!   (race (<table>...) [(<table>...)])   a forced flush starts while the first ingestion holds the
+//!                                        ingestion lock; the second ingestion (if any) queues up too
 //!   (dump ((xNAME (xCOL...))...))
 use lvharness::suite::panic_message;
 use lvharness::sx::Sx;
@@ -355,6 +357,118 @@ impl Child {
                 let r = catch_unwind(AssertUnwindSafe(|| db.force_flush()));
                 match r {
                     Ok(()) => Sx::l(vec![Sx::a("ok")]),
+                    Err(e) => Sx::l(vec![Sx::a("panic"), Sx::bytes(panic_message(e).as_bytes())]),
+                }
+            }
+            "race" => {
+                // Three ordinary client threads lined up with the sync points of the `verif` feature.
+                // The flush thread takes the ingestion lock at the top of every round of its loop, so
+                // ingestion A first waits at "ingest:begin" (before the lock); when the flush thread
+                // reports "wal_flush:begin" A goes on, takes the lock and is held at
+                // "ingest:wal_locked"; only then does the flush thread continue - to the lock, which
+                // A owns.  Ingestion B is started, queues up too, and A is released.
+                struct Gate {
+                    a_at_begin: bool,
+                    a_begin_done: bool,
+                    a_locked_done: bool,
+                    parked: bool,
+                    release: bool,
+                    flush_begun: bool,
+                }
+                let ev_a = event_buffer(it[1].items());
+                let ev_b = if it.len() > 2 { Some(event_buffer(it[2].items())) } else { None };
+                let db = self.db.as_ref().unwrap();
+                // (the database runs queries of its own with futures::executor::block_on: the callers'
+                // futures are driven by the tokio runtime, as for the plain ingest command)
+                let rt_a = self.rt.handle().clone();
+                let rt_b = self.rt.handle().clone();
+                let gate = Arc::new((
+                    Mutex::new(Gate { a_at_begin: false, a_begin_done: false, a_locked_done: false, parked: false, release: false, flush_begun: false }),
+                    Condvar::new(),
+                ));
+                let g2 = gate.clone();
+                hooks::set_sync_point(Some(Arc::new(move |label: &str| {
+                    let (m, cv) = &*g2;
+                    let wait = |mut g: std::sync::MutexGuard<Gate>, f: &dyn Fn(&Gate) -> bool, secs: u64| {
+                        let deadline = Instant::now() + Duration::from_secs(secs);
+                        while !f(&g) && Instant::now() < deadline {
+                            g = cv.wait_timeout(g, Duration::from_millis(20)).unwrap().0;
+                        }
+                    };
+                    match label {
+                        "ingest:begin" => {
+                            let mut g = m.lock().unwrap();
+                            if !g.a_begin_done {
+                                g.a_begin_done = true;
+                                g.a_at_begin = true;
+                                cv.notify_all();
+                                wait(g, &|g: &Gate| g.flush_begun, 10);
+                            }
+                        }
+                        "ingest:wal_locked" => {
+                            let mut g = m.lock().unwrap();
+                            if !g.a_locked_done {
+                                g.a_locked_done = true;
+                                g.parked = true;
+                                cv.notify_all();
+                                wait(g, &|g: &Gate| g.release, 20);
+                            }
+                        }
+                        "wal_flush:begin" => {
+                            let mut g = m.lock().unwrap();
+                            if !g.flush_begun {
+                                g.flush_begun = true;
+                                cv.notify_all();
+                                wait(g, &|g: &Gate| g.parked, 5);
+                            }
+                        }
+                        _ => {}
+                    }
+                })));
+                let wait_for = |f: &dyn Fn(&Gate) -> bool| {
+                    let (m, cv) = &*gate;
+                    let deadline = Instant::now() + Duration::from_secs(10);
+                    let mut g = m.lock().unwrap();
+                    while !f(&g) && Instant::now() < deadline {
+                        g = cv.wait_timeout(g, Duration::from_millis(20)).unwrap().0;
+                    }
+                    f(&g)
+                };
+                let r = catch_unwind(AssertUnwindSafe(|| {
+                    std::thread::scope(|s| {
+                        let ha = s.spawn(move || rt_a.block_on(db.ingest_efficient(ev_a)));
+                        wait_for(&|g: &Gate| g.a_at_begin);
+                        let hf = s.spawn(|| db.force_flush());
+                        let begun = wait_for(&|g: &Gate| g.flush_begun);
+                        let parked = wait_for(&|g: &Gate| g.parked);
+                        // the flush thread is on its way to the lock A owns
+                        std::thread::sleep(Duration::from_millis(100));
+                        let hb = ev_b.map(|ev| s.spawn(move || rt_b.block_on(db.ingest_efficient(ev))));
+                        std::thread::sleep(Duration::from_millis(60));
+                        {
+                            let (m, cv) = &*gate;
+                            m.lock().unwrap().release = true;
+                            cv.notify_all();
+                        }
+                        let mut err: Option<String> = None;
+                        if let Err(e) = ha.join() {
+                            err = Some(panic_message(e));
+                        }
+                        if let Some(h) = hb {
+                            if let Err(e) = h.join() {
+                                err = Some(panic_message(e));
+                            }
+                        }
+                        if let Err(e) = hf.join() {
+                            err = Some(panic_message(e));
+                        }
+                        (parked, begun, err)
+                    })
+                }));
+                hooks::set_sync_point(None);
+                match r {
+                    Ok((parked, begun, None)) => Sx::l(vec![Sx::a("ok"), Sx::boolean(parked), Sx::boolean(begun)]),
+                    Ok((_, _, Some(m))) => Sx::l(vec![Sx::a("panic"), Sx::bytes(m.as_bytes())]),
                     Err(e) => Sx::l(vec![Sx::a("panic"), Sx::bytes(panic_message(e).as_bytes())]),
                 }
             }
